@@ -132,8 +132,10 @@ def make_ops(rng, cfg, profile, tier):
             ops.append({'op': 'BAD_CATALOG', 'a': [rng.randrange(64), rng.randrange(1 << 16)]})
         elif r < 0.92:
             ops.append({'op': 'CENTRAL_MAX', 'a': []})
-        elif r < 0.935:
+        elif r < 0.93:
             ops.append({'op': 'LATE_ATTACH', 'a': [rng.randrange(3), [rng.randrange(3) for _ in range(rng.randrange(2, 6))]]})
+        elif r < 0.94:
+            ops.append({'op': 'REUSE_PIECE', 'a': [rng.randrange(3), rng.randrange(2)]})
         else:
             ops.append({'op': 'BIOGEME', 'a': [rng.randrange(1 << 30)]})
     return ops
@@ -204,7 +206,11 @@ class Session:
         if cfg['nseg'] >= 2:
             self.segs.append(('s1', {0: 'no', 1: 'yes'}))
         self.seg_tuples = tuple(DiscreteSegmentationTuple(variable=v, mapping=m) for v, m in self.segs)
-        self.helper_betas = [ex.Beta('hb0', 0.0, None, None, 0), ex.Beta('hb1', 0.0, None, None, 0)]
+        # starting values of the coefficients handed to the helpers: everything the helpers derive from a coefficient
+        # (alternative-specific versions, category-specific terms) starts at the coefficient's own starting value
+        self.helper_starts = {'hb0': 0.3, 'hb1': -0.6}
+        self.helper_betas = [ex.Beta('hb0', self.helper_starts['hb0'], None, None, 0),
+                             ex.Beta('hb1', self.helper_starts['hb1'], None, None, 0)]
         self.segcats = None
         self.gascats = None
         if cfg['helpers'] == 'seg':
@@ -425,6 +431,46 @@ class Session:
                     ctx.fail('I16.refuse', f'a catalog listing the alternatives of controller {c} as {perm} (the controller has '
                                            f'{names}) was accepted')
                 ctx.log(kind, c)
+        elif kind == 'REUSE_PIECE':
+            # a formula with two catalogs (two controllers) is enumerated and configured; one of its catalogs is then reused
+            # in a second formula that has nothing to do with the other controller: the second formula has the
+            # configurations of ITS controller only
+            from biogeme.catalog import Catalog
+            from biogeme.controller import Controller
+            import biogeme.expressions as ex
+            sel_a, sel_b = a
+            ca = Controller('reuse_a', ['lin', 'sq', 'cub'])
+            cb = Controller('reuse_b', ['one', 'two'])
+            x0, x1 = ex.Variable('x0'), ex.Variable('x1')
+            cat_a = Catalog('reuse_cat_a', [ex.NamedExpression('lin', x0), ex.NamedExpression('sq', x0 * x0),
+                                            ex.NamedExpression('cub', x0 * x0 * x0)], controlled_by=ca)
+            cat_b = Catalog('reuse_cat_b', [ex.NamedExpression('one', x1), ex.NamedExpression('two', 2.0 * x1)], controlled_by=cb)
+            f1 = cat_a + cat_b
+            ids1 = {c_.get_string_id() for c_ in f1.set_of_configurations()}
+            if len(ids1) != 6:
+                ctx.fail('I16.product', f'first formula (3 x 2 alternatives) has {len(ids1)} configurations: {sorted(ids1)}')
+            f1.configure_catalogs(Configuration.from_string(f"reuse_a:{['lin', 'sq', 'cub'][sel_a]};reuse_b:{['one', 'two'][sel_b]}"))
+            f2 = 2.0 * cat_a + 1.0
+            n2 = f2.number_of_multiple_expressions()
+            ids2 = {c_.get_string_id() for c_ in f2.set_of_configurations()}
+            want2 = {f'reuse_a:{m_}' for m_ in ('lin', 'sq', 'cub')}
+            if n2 != 3 or ids2 != want2:
+                ctx.fail('I16.product', f'a formula that reuses one catalog of an already configured formula reports {n2} '
+                                        f'configurations {sorted(ids2)}; it holds one catalog of 3 alternatives: {sorted(want2)}')
+            pw = {'lin': 1, 'sq': 2, 'cub': 3}
+            visited = []
+            for e_ in f2:
+                visited.append(f2.current_configuration().get_string_id())
+            if sorted(visited) != sorted(want2):
+                ctx.fail('I16.iter', f'iteration over the second formula visits {visited}, its configurations are {sorted(want2)}')
+            for m_ in ('cub', 'lin'):
+                f2.configure_catalogs(Configuration.from_string(f'reuse_a:{m_}'))
+                got = [float(v) for v in f2.get_value_c(database=self.db, prepare_ids=True)]
+                for g_, r_ in zip(got, self.rows):
+                    if not ref.close(g_, 2.0 * r_['x0'] ** pw[m_] + 1.0, 1e-12, 1e-13):
+                        ctx.fail('I16.eval', f'second formula on reuse_a:{m_} evaluates to {g_!r}')
+            ctx.probe('catalog of a configured formula reused in another formula')
+            ctx.log(kind, sel_a, sel_b)
         elif kind == 'LATE_ATTACH':
             # a catalog attached to a controller that has ALREADY been used and moved by an earlier formula: from then on
             # both catalogs follow the controller, starting with the selection in force when the second one is attached
@@ -661,6 +707,16 @@ class Session:
                 if not ref.close(g, w, 1e-12, 1e-13):
                     ctx.fail('I16.value', f'configured formula [{self.model_id()}] evaluates to {g!r} on row {r}, the '
                                           f'hand-written biogeme formula to {w!r}')
+            # ... and at the starting values (no dictionary given): the formula written out by hand, every parameter at the
+            # starting value the documentation gives it
+            starts = {k_: (self.helper_starts['hb0'] if k_.startswith('hb0') else self.helper_starts['hb1'] if k_.startswith('hb1')
+                           else 0.0) for k_ in vals}
+            got0 = self.eval_engine(self.expr, None)
+            want0 = [ref.ev(ast, ref.Env(r_, starts)) for r_ in self.rows]
+            for r, (g, w) in enumerate(zip(got0, want0)):
+                if not ref.close(g, w, 1e-12, 1e-13):
+                    ctx.fail('I16.value', f'configured formula [{self.model_id()}] at its starting values evaluates to {g!r} on row '
+                                          f'{r}, the formula written out by hand with the documented starting values gives {w!r}')
             self.check_state(kind)
             ctx.log(kind, [fhex(v) for v in got])
         elif kind == 'BIOGEME':
